@@ -6,6 +6,7 @@ import (
 	"math/rand/v2"
 	"os"
 	"path/filepath"
+	"runtime"
 	"strings"
 	"sync"
 	"sync/atomic"
@@ -24,7 +25,7 @@ func init() { register("C06", checkC06) }
 type wCall struct {
 	Kind string `json:"kind"` // create | match | mismatch | update
 	Val  string `json:"val"`
-	API  string `json:"api"` // snap | json | yaml
+	API  string `json:"api"`            // snap | json | yaml
 	Form string `json:"form,omitempty"` // "value": the JSON document is handed over as a Go value
 }
 
@@ -36,9 +37,9 @@ type wTask struct {
 }
 
 type workload struct {
-	Tasks []wTask            `json:"tasks"`
-	Pre   []vkit.SnapEntry   `json:"pre"`    // file content before the run (in order)
-	Seed  map[string]string  `json:"seeded"` // slot id -> stored text before the run
+	Tasks []wTask           `json:"tasks"`
+	Pre   []vkit.SnapEntry  `json:"pre"`    // file content before the run (in order)
+	Seed  map[string]string `json:"seeded"` // slot id -> stored text before the run
 }
 
 func valFor(api, tag string) (input, stored string) {
@@ -431,7 +432,9 @@ func tokenCase(c *vkit.Ctx, i int) {
 	}
 }
 
-func isRead(site string) bool  { return strings.Contains(site, "os.ReadFile") || strings.Contains(site, "Scan-loop") }
+func isRead(site string) bool {
+	return strings.Contains(site, "os.ReadFile") || strings.Contains(site, "Scan-loop")
+}
 func isWrite(site string) bool {
 	return strings.Contains(site, "Fprintf") || strings.Contains(site, ".Write") || strings.Contains(site, "Truncate") || strings.Contains(site, "os.WriteFile")
 }
@@ -509,7 +512,18 @@ func freeMode(c *vkit.Ctx) {
 				runTask(root, cfg, w.Tasks[ti], ti, h, &outcomes, &omu)
 			}(ti)
 		}
-		wg.Wait()
+		done := make(chan struct{})
+		go func() { wg.Wait(); close(done) }()
+		select {
+		case <-done:
+		case <-time.After(180 * time.Second):
+			// wall-clock watchdog: not a verdict. The calls are stuck inside the library (its
+			// global lock may be held), so this worker cannot run further workloads.
+			buf := make([]byte, 1<<16)
+			buf = buf[:runtime.Stack(buf, true)]
+			c.Inconclusive(fmt.Sprintf("free-running workload %d did not finish within 180 s; goroutines:\n%s", i, vkit.Clip(string(buf), 4000)))
+			return
+		}
 		Uninstall()
 		in := map[string]any{"workload": w, "mode": "free-running"}
 		for site, k := range sitesFn() {
